@@ -5,7 +5,26 @@ The engine abstracts encoding/json on arbitrary bytes by uninterpreted parse res
 For native replay the model's valuation is turned into bytes from a small template family."""
 import json, re
 
-ATTRS = ["sNull", "empty", "sErr", "mErr", "sID", "sTok", "sPrio", "mHas_id", "mIsStr_id", "mStr_id", "mHas_token", "mIsStr_token", "mStr_token"]
+ATTRS = ["sNull", "empty", "sErr", "mErr", "sID", "sTok", "sPrio", "mHas_id", "mIsStr_id", "mStr_id", "mHas_token", "mIsStr_token", "mStr_token",
+         "mHas_priority", "mIsNum_priority", "mNum_priority"]
+
+
+def real(v):
+    """SMT-LIB real literal -> python number (int when integral)."""
+    if v is None:
+        return None
+    v = v.strip()
+    neg = False
+    m = re.match(r"^\(- (.*)\)$", v)
+    if m:
+        neg, v = True, m.group(1).strip()
+    m = re.match(r"^\(/ ([0-9.]+) ([0-9.]+)\)$", v)
+    try:
+        x = float(m.group(1)) / float(m.group(2)) if m else float(v)
+    except ValueError:
+        return None
+    x = -x if neg else x
+    return int(x) if x == int(x) and abs(x) < 2 ** 63 else x
 
 
 def unesc(s):
@@ -79,8 +98,35 @@ def synth_one(a):
         else:
             if not s_err and sval != "":
                 parts.append("%s:%s" % (json.dumps(alt), json.dumps(sval)))
-    if s_err:
-        parts.append('"priority":"not-a-number"')  # valid JSON, struct parse fails
-    elif sprio != 0:
-        parts.append('"priority":%d' % sprio)
+    # priority: the generic-map view sees only the exact key "priority"; the struct view also matches other spellings
+    p_has = b(a, "mHas_priority", True) if "mHas_priority" in a else None
+    if p_has is None:  # map view of the priority never consulted: one key serves both views
+        if s_err:
+            parts.append('"priority":"not-a-number"')  # valid JSON, struct parse fails
+        elif sprio != 0:
+            parts.append('"priority":%d' % sprio)
+        return "{" + ",".join(parts) + "}"
+    p_isnum = b(a, "mIsNum_priority", True)
+    mnum = real(a.get("mNum_priority"))
+    if p_has:
+        if p_isnum:
+            if mnum is None:
+                mnum = sprio
+            parts.append('"priority":%s' % json.dumps(mnum))
+            if s_err:
+                if not (isinstance(mnum, float)):
+                    parts.append('"PRIORITY":"not-a-number"')
+            elif mnum != sprio:
+                parts.append('"PRIORITY":%d' % sprio)
+        else:
+            parts.append('"priority":null')
+            if s_err:
+                parts.append('"PRIORITY":"not-a-number"')
+            elif sprio != 0:
+                parts.append('"PRIORITY":%d' % sprio)
+    else:
+        if s_err:
+            parts.append('"PRIORITY":"not-a-number"')
+        elif sprio != 0:
+            parts.append('"PRIORITY":%d' % sprio)
     return "{" + ",".join(parts) + "}"
